@@ -609,6 +609,9 @@ class History:
         if mode == "inferred":
             path = Path(self.tmp) / f"f.{name}"
             fmt = None
+        elif mode == "explicit_noext":
+            path = Path(self.tmp) / "f_without_extension"  # the given format must be used; nothing can be inferred
+            fmt = name
         else:
             path = Path(self.tmp) / "f.dat"
             fmt = name
@@ -758,7 +761,8 @@ def prop_dispatch(case):
         for fn in funcs:
             for name in names:
                 h._dispatch(fn, name, "explicit")
-                n_calls += 1
+                h._dispatch(fn, name, "explicit_noext")
+                n_calls += 2
                 if "." not in name:
                     h._dispatch(fn, name, "inferred")
                     n_calls += 1
@@ -858,9 +862,9 @@ class RegistryMachine(RuleBasedStateMachine):
         h = self.h
         funcs = DATA_FUNCS if h.ad.variant == "data_io" else PROJECT_FUNCS
         fn = data.draw(st.sampled_from(funcs))
-        mode = data.draw(st.sampled_from(["explicit", "inferred"]))
+        mode = data.draw(st.sampled_from(["explicit", "explicit_noext", "inferred"]))
         pool = _M_SHORTS + [NEVER] + ([h.ad.builtin] if h.ad.builtin else [])
-        if mode == "explicit":
+        if mode != "inferred":
             pool = pool + self._all_fulls()
         name = data.draw(st.sampled_from(pool))
         self._step({"op": "dispatch", "fn": fn, "name": name, "mode": mode})
